@@ -24,6 +24,7 @@ type FoldDecl struct {
 	Piece string
 	Lo    string
 	Hi    string
+	Drop  bool // the piece "\x00" stands for "nothing"
 }
 
 func parseFoldDirective(kw, rest string) (*FoldDecl, error) {
@@ -38,6 +39,9 @@ func parseFoldDirective(kw, rest string) (*FoldDecl, error) {
 	d := &FoldDecl{Name: f[0], Kind: kw, Piece: f[2]}
 	if len(f) == 6 && f[3] == "bounds" {
 		d.Lo, d.Hi = f[4], f[5]
+	}
+	if len(f) == 4 && f[3] == "drop" {
+		d.Drop = true
 	}
 	return d, nil
 }
@@ -80,7 +84,29 @@ func (e *Engine) foldCall(d *FoldDecl, pk *Pkg, fn *types.Func, args []Value, rt
 		psig := pfn.Type().(*types.Signature)
 		e.spec++
 		e.bound++
-		res := e.inlineCall(&ast.CallExpr{}, pfn, decl, pk, psig, nil, []Value{{"s!b", types.Typ[types.String]}, {"k!b", types.Typ[types.Int]}}, st)
+		pargs := []Value{{"s!b", types.Typ[types.String]}, {"k!b", types.Typ[types.Int]}}
+		// extra parameters of the piece (flags, modes) are carried unchanged through the fold
+		xb, xa, xs := "", "", ""
+		for i := 2; i < psig.Params().Len(); i++ {
+			pt := psig.Params().At(i).Type()
+			nm := fmt.Sprintf("x%d!b", i)
+			if e.sortOf(pt) == "Bool" {
+				// Boolean parameters travel as 0/1 integers: E-matching does not see Bool-sorted arguments
+				pargs = append(pargs, Value{sx("=", nm, "1"), pt})
+				xb += fmt.Sprintf(" (%s Int)", nm)
+				xa += " " + nm
+				xs += " Int"
+				continue
+			}
+			pargs = append(pargs, Value{nm, pt})
+			xb += fmt.Sprintf(" (%s %s)", nm, e.sortOf(pt))
+			xa += " " + nm
+			xs += " " + e.sortOf(pt)
+		}
+		if len(args) != 1+psig.Params().Len() {
+			panic(unsupportedErr{fmt.Sprintf("fold %s: want %d arguments", d.Name, 1+psig.Params().Len())})
+		}
+		res := e.inlineCall(&ast.CallExpr{}, pfn, decl, pk, psig, nil, pargs, st)
 		e.bound--
 		e.spec--
 		e.pk = savedPk
@@ -90,29 +116,40 @@ func (e *Engine) foldCall(d *FoldDecl, pk *Pkg, fn *types.Func, args []Value, rt
 		r := res[0].T
 		switch d.Kind {
 		case "fold":
-			p := fmt.Sprintf("(let ((pc!p %s)) (ite (= (s_len pc!p) 0) (bseq (s_arr s!b) (+ (s_off s!b) k!b) (+ (s_off s!b) k!b 1)) (bseq (s_arr pc!p) (s_off pc!p) (+ (s_off pc!p) (s_len pc!p)))))", r)
-			e.sortDecls = append(e.sortDecls,
-				fmt.Sprintf("(declare-fun %s (Str Int Int) BSeq)", sym),
-				fmt.Sprintf("(define-fun P%s ((s!b Str) (k!b Int)) BSeq %s)", sym, p),
-				fmt.Sprintf("(define-fun Plain%s ((s!b Str) (k!b Int)) Bool (= (s_len %s) 0))", sym, r),
-				fmt.Sprintf("(assert (forall ((s Str) (i Int)) (! (= (%s s i i) eps) :pattern ((%s s i i)))))", sym, sym),
-				fmt.Sprintf("(assert (forall ((s Str) (i Int)) (! (=> (and (<= 0 i) (< i (s_len s))) (= (%s s i (+ i 1)) (P%s s i))) :pattern ((%s s i (+ i 1))))))", sym, sym, sym),
-				fmt.Sprintf("(assert (forall ((s Str) (i Int) (j Int) (k Int)) (! (=> (and (<= i j) (<= j k) (fhint j)) (= (%s s i k) (cat (%s s i j) (%s s j k)))) :pattern ((%s s i k) (fhint j)))))", sym, sym, sym, sym))
+			// piece "" = the byte itself; otherwise the piece's bytes; with `drop`, the piece "\x00" = nothing
+			whole := "(bseq (s_arr pc!p) (s_off pc!p) (+ (s_off pc!p) (s_len pc!p)))"
+			if d.Drop {
+				whole = fmt.Sprintf("(ite (and (= (s_len pc!p) 1) (= (select (s_arr pc!p) (s_off pc!p)) 0)) eps %s)", whole)
+			}
+			p := fmt.Sprintf("(let ((pc!p %s)) (ite (= (s_len pc!p) 0) (bseq (s_arr s!b) (+ (s_off s!b) k!b) (+ (s_off s!b) k!b 1)) %s))", r, whole)
+			e.decls = append(e.decls,
+				fmt.Sprintf("(declare-fun %s (Str Int Int%s) BSeq)", sym, xs),
+				fmt.Sprintf("(define-fun P%s ((s!b Str) (k!b Int)%s) BSeq %s)", sym, xb, p),
+				fmt.Sprintf("(assert (forall ((s!b Str) (i Int)%s) (! (= (%s s!b i i%s) eps) :pattern ((%s s!b i i%s)))))", xb, sym, xa, sym, xa),
+				fmt.Sprintf("(assert (forall ((s!b Str) (i Int) (j Int)%s) (! (=> (and (<= 0 i) (< i (s_len s!b)) (= j (+ i 1))) (= (%s s!b i j%s) (P%s s!b i%s))) :pattern ((%s s!b i j%s)))))", xb, sym, xa, sym, xa, sym, xa),
+				fmt.Sprintf("(assert (forall ((s!b Str) (i Int) (j Int) (k Int)%s) (! (=> (and (<= i j) (<= j k) (fsplit i j k)) (= (%s s!b i k%s) (cat (%s s!b i j%s) (%s s!b j k%s)))) :pattern ((%s s!b i k%s) (fsplit i j k)))))", xb, sym, xa, sym, xa, sym, xa, sym, xa))
 		case "sum":
-			e.sortDecls = append(e.sortDecls,
-				fmt.Sprintf("(declare-fun %s (Str Int Int) Int)", sym),
-				fmt.Sprintf("(define-fun P%s ((s!b Str) (k!b Int)) Int %s)", sym, r),
-				fmt.Sprintf("(assert (forall ((s Str) (i Int)) (! (= (%s s i i) 0) :pattern ((%s s i i)))))", sym, sym),
-				fmt.Sprintf("(assert (forall ((s Str) (i Int)) (! (=> (and (<= 0 i) (< i (s_len s))) (= (%s s i (+ i 1)) (P%s s i))) :pattern ((%s s i (+ i 1))))))", sym, sym, sym),
-				fmt.Sprintf("(assert (forall ((s Str) (i Int) (j Int) (k Int)) (! (=> (and (<= i j) (<= j k) (fhint j)) (= (%s s i k) (+ (%s s i j) (%s s j k)))) :pattern ((%s s i k) (fhint j)))))", sym, sym, sym, sym))
+			e.decls = append(e.decls,
+				fmt.Sprintf("(declare-fun %s (Str Int Int%s) Int)", sym, xs),
+				fmt.Sprintf("(define-fun P%s ((s!b Str) (k!b Int)%s) Int %s)", sym, xb, r),
+				fmt.Sprintf("(assert (forall ((s!b Str) (i Int)%s) (! (= (%s s!b i i%s) 0) :pattern ((%s s!b i i%s)))))", xb, sym, xa, sym, xa),
+				fmt.Sprintf("(assert (forall ((s!b Str) (i Int) (j Int)%s) (! (=> (and (<= 0 i) (< i (s_len s!b)) (= j (+ i 1))) (= (%s s!b i j%s) (P%s s!b i%s))) :pattern ((%s s!b i j%s)))))", xb, sym, xa, sym, xa, sym, xa),
+				fmt.Sprintf("(assert (forall ((s!b Str) (i Int) (j Int) (k Int)%s) (! (=> (and (<= i j) (<= j k) (fsplit i j k)) (= (%s s!b i k%s) (+ (%s s!b i j%s) (%s s!b j k%s)))) :pattern ((%s s!b i k%s) (fsplit i j k)))))", xb, sym, xa, sym, xa, sym, xa, sym, xa))
 			if d.Lo != "" {
-				e.sortDecls = append(e.sortDecls,
-					fmt.Sprintf("(assert (forall ((s Str) (i Int) (j Int)) (! (=> (and (<= 0 i) (<= i j) (<= j (s_len s))) (and (<= (* %s (- j i)) (%s s i j)) (<= (%s s i j) (* %s (- j i))))) :pattern ((%s s i j)))))", bigStr(d.Lo), sym, sym, bigStr(d.Hi), sym))
+				e.decls = append(e.decls,
+					fmt.Sprintf("(assert (forall ((s!b Str) (i Int) (j Int)%s) (! (=> (and (<= 0 i) (<= i j) (<= j (s_len s!b))) (and (<= (* %s (- j i)) (%s s!b i j%s)) (<= (%s s!b i j%s) (* %s (- j i))))) :pattern ((%s s!b i j%s)))))", xb, bigStr(d.Lo), sym, xa, sym, xa, bigStr(d.Hi), sym, xa))
 			}
 		}
 		e.stubsUsed[fmt.Sprintf("fold %s over %s: axioms empty/unit/split (inductive consequences of its recursive definition; DESIGN 2.4)", d.Name, d.Piece)] = true
 	}
-	return Value{sx(sym, args[0].T, args[1].T, args[2].T), rt}
+	ts := make([]string, len(args))
+	for i, a := range args {
+		ts[i] = a.T
+		if i >= 3 && e.sortOf(a.Typ) == "Bool" {
+			ts[i] = sx("ite", a.T, "1", "0")
+		}
+	}
+	return Value{sx(sym, ts...), rt}
 }
 
 // isBseqType reports whether t is the abstract byte-sequence type `bseq` declared in a contract file.
@@ -134,10 +171,23 @@ func (e *Engine) hints(st *State, hs []*Clause) {
 		return
 	}
 	e.declareWriterTheory()
+	guard := st.pc
 	for _, h := range hs {
 		e.spec++
 		v := e.ev(h.Expr, st)
 		e.spec--
-		e.assume(st.pc, sx("fhint", v.T))
+		if h.Kind == "when" {
+			guard = and(st.pc, v.T)
+			continue
+		}
+		if e.sortOf(v.Typ) == "Bool" {
+			e.assume(guard, v.T)
+		} else if e.sortOf(v.Typ) == "BSeq" {
+			// a byte-sequence term the proof needs to exist (it seeds the associativity and merge laws)
+			e.assume(guard, sx("fknown", v.T))
+		} else {
+			e.assume(guard, sx("fhint", v.T))
+		}
+		guard = st.pc
 	}
 }
